@@ -55,7 +55,7 @@ CHECKS["C05"] = {
     "design_ref": "DESIGN.md section 5, C05",
     "technique": "Kani symbolic harnesses stating the postcondition of the public trait methods of each 8-bit arithmetic (contract of new() proved separately and reused through a guarded constructor hook)",
     "text": "For each of the sixteen 8-bit arithmetics, complete over the stated domains: the quantiser for every f64 bit pattern (no panic, [-127,127], round-half-away(8x) saturated); clip for every i16; the variable rule (exactly n sends in order, saturating sums, Jones and degree-one clipping per the name, never -128, Kani's overflow checks on) for every message vector of every degree 1..8 in the quick tier and 1..200 in the thorough tier; layered update == flooding check rule on the extrinsics plus the new message at check degrees 2 and 3 inside |variable LLR| <= 508.",
-    "note": "Trusted: Kani/CBMC/CaDiCaL. The float arithmetics' variable rule is not covered. Layered/flooding consistency is bounded to check degrees 2 and 3 (labelled bounded in the evidence). The quick tier's degree bound 8 is a bounded stand-in for the thorough tier's complete 1..200.",
+    "note": "Trusted: Kani/CBMC/CaDiCaL. The float arithmetics' variable rule is covered at degrees 1..3 only (thorough tier, bounded); the property's degree range 1..200 is covered up to 100 for the four shapes of the shared 8-bit macro body and up to 32 for all sixteen types (1..200 did not finish). Layered/flooding consistency is bounded to check degrees 2 and 3 (labelled bounded in the evidence). The quick tier's degree bound 8 is a bounded stand-in for the thorough tier's complete 1..200.",
 }
 CHECKS["C04"] = {
     "engine": "kani",
